@@ -4,7 +4,7 @@
      - hashmap_clauses (directly driven AttributesHashMap): all clauses;
      - storage_clauses (reports of a storage over a history): the clauses series_le_limit, overflow_conserves_total,
        duplicate_series and collect_completes (strict = false); the two checks that look inside the individual series
-       (known_ok, exact_ok) are not proved of the model here - they are checked on every run on the implementation's reports. *)
+       (known_ok, exact_ok) are not proved of the model here. *)
 From V Require Import C08.Glue C08.ProofsAttrs C08.ProofsTable C08.ProofsStorage.
 From Coq Require Import Lia ZifyBool ZifyNat Permutation Sorting.Sorted.
 Local Open Scope Z_scope.
@@ -28,26 +28,19 @@ Section KAll.
     intros H Hk. unfold record. destruct (tfind k t); [apply kall_tset; assumption|].
     destruct (is_overflow L t); [apply kall_tadd, kall_ensure; assumption|apply kall_app; assumption].
   Qed.
-  Lemma kall_record_ref L k d t t' : kall Q t -> Q k -> record_ref L k d t = Some t' -> kall Q t'.
-  Proof.
-    intros H Hk. unfold record_ref. destruct (tfind k t); [intros X; inversion X; apply kall_tset; assumption|].
-    destruct (is_overflow L t); [intros X; inversion X; apply kall_tadd, kall_ensure; assumption|].
-    destruct (self_eq k); [|discriminate]. intros X; inversion X. apply kall_app; assumption.
-  Qed.
   Lemma kall_tput L k v t : kall Q t -> Q k -> kall Q (tput L k v t).
   Proof.
     intros H Hk. unfold tput. destruct (tfind k t); [apply kall_tset; assumption|].
     destruct (is_overflow L t); [|apply kall_app; assumption].
     destruct (tfind overflow_attrs t); [apply kall_tset; assumption|apply kall_app; assumption].
   Qed.
-  Lemma kall_merge_in L t e t' : kall Q t -> Q (fst e) -> merge_in L t e = Some t' -> kall Q t'.
+  Lemma kall_merge_in L t e : kall Q t -> Q (fst e) -> kall Q (merge_in L t e).
   Proof.
     intros H Hk. destruct e as [k d]. cbn [fst] in Hk. unfold merge_in. destruct (tfind k t).
-    - intros X; inversion X. apply kall_tput; assumption.
+    - apply kall_tput; assumption.
     - destruct (is_overflow L t).
-      + destruct (tfind overflow_attrs (ensure_overflow t)); [|discriminate]. intros X; inversion X.
-        apply kall_tput; [apply kall_ensure|]; assumption.
-      + destruct (self_eq k); [|discriminate]. intros X; inversion X. apply kall_tput; [apply kall_app|]; assumption.
+      + apply kall_tput; [apply kall_ensure|]; assumption.
+      + apply kall_tput; [apply kall_app|]; assumption.
   Qed.
   Lemma kall_perm a b : Permutation a b -> kall Q a -> kall Q b.
   Proof. unfold kall. intros Hp. apply Permutation_Forall. apply Permutation_map. assumption. Qed.
@@ -58,40 +51,36 @@ End KAll.
 (* ------------------------------------------------------------------ instance 1: size and distinctness, for ALL histories *)
 Definition P1 (L : nat) (t : table) : Prop := tinv L t /\ kdistinct t.
 
-Lemma results_ok_mono c (P P' : table -> Prop) (Q Q' : attrs -> Prop) :
-  (forall t, P t -> P' t) -> (Qself Q' -> Qself Q) ->
-  forall ops rs hist marks, results_ok c P Q rs ops hist marks -> results_ok c P' Q' rs ops hist marks.
+Lemma results_ok_mono c (P P' : table -> Prop) : (forall t, P t -> P' t) ->
+  forall ops rs hist marks, results_ok c P rs ops hist marks -> results_ok c P' rs ops hist marks.
 Proof.
-  intros HP HQ. induction ops as [|o ops IH]; intros rs hist marks; [auto|].
+  intros HP. induction ops as [|o ops IH]; intros rs hist marks; [auto|].
   destruct o as [kvs v|v|i]; cbn [results_ok]; auto.
-  destruct rs as [|r rs]; [auto|]. destruct r as [|t| |].
+  destruct rs as [|r rs]; [auto|]. destruct r as [|t|].
   - intros [H1 H2]. split; auto.
   - intros [H1 [H2 H3]]. repeat split; auto.
-  - intros [H1 H2]. split; auto.
   - auto.
 Qed.
 
-Lemma results_ok_reports c P Q : forall ops rs hist marks t,
-  results_ok c P Q rs ops hist marks -> In (CReport t) rs -> P t.
+Lemma results_ok_reports c P : forall ops rs hist marks t,
+  results_ok c P rs ops hist marks -> In (CReport t) rs -> P t.
 Proof.
   induction ops as [|o ops IH]; intros rs hist marks t; cbn [results_ok].
   - intros -> [].
   - destruct o as [kvs v|v|i]; try (apply IH).
-    destruct rs as [|r rs]; [intros []|]. destruct r as [|t0| |].
+    destruct rs as [|r rs]; [intros []|]. destruct r as [|t0|].
     + intros [_ H] [X|X]; [discriminate|]. eapply IH; eauto.
     + intros [H1 [_ H]] [X|X]; [inversion X; subst; assumption|]. eapply IH; eauto.
-    + intros [_ ->] [X|[]]. discriminate.
     + intros -> [X|[]]. discriminate.
 Qed.
 
 Theorem history_ok_all c ops walks : (1 <= c_limit c)%nat ->
-  results_ok c (P1 (c_limit c)) (fun _ => True) (run_ops c ops walks (init_storage c)) ops [] (map (fun _ => O) (c_temps c)).
+  results_ok c (P1 (c_limit c)) (run_ops c ops walks (init_storage c)) ops [] (map (fun _ => O) (c_temps c)).
 Proof.
-  intros HL. apply run_ops_ok.
+  intros HL. apply (run_ops_ok c (P1 (c_limit c)) (fun _ => True)).
   - split; [apply tinv_nil; assumption|constructor].
   - intros k d t [H1 H2] _. split; [apply record_tinv|apply record_kdistinct]; assumption.
-  - intros k d t t' [H1 H2] _ E. split; [eapply record_ref_tinv|eapply record_ref_kdistinct]; eauto.
-  - intros t e t' [H1 H2] _ E. split; [eapply merge_in_tinv|eapply merge_in_kdistinct]; eauto.
+  - intros t e [H1 H2] _. split; [apply merge_in_tinv|apply merge_in_kdistinct]; assumption.
   - intros a b Hp [H1 H2]. split; [eapply tinv_perm|eapply kdistinct_perm]; eauto.
   - auto.
   - apply SP_init. split; [apply tinv_nil; assumption|constructor].
@@ -103,27 +92,27 @@ Qed.
 Theorem series_le_limit_lemma c ops walks t : (1 <= c_limit c)%nat ->
   In (CReport t) (run_ops c ops walks (init_storage c)) -> (length t <= c_limit c)%nat.
 Proof.
-  intros HL Hin. pose proof (results_ok_reports _ _ _ _ _ _ _ t (history_ok_all c ops walks HL) Hin) as [H _]. apply tinv_le. exact H.
+  intros HL Hin. pose proof (results_ok_reports _ _ _ _ _ _ t (history_ok_all c ops walks HL) Hin) as [H _]. apply tinv_le. exact H.
 Qed.
 (* no attribute set is split over two reported series (keys pairwise different under the map comparison) *)
 Theorem reported_series_distinct_lemma c ops walks t : (1 <= c_limit c)%nat ->
   In (CReport t) (run_ops c ops walks (init_storage c)) -> kdistinct t.
 Proof.
-  intros HL Hin. pose proof (results_ok_reports _ _ _ _ _ _ _ t (history_ok_all c ops walks HL) Hin) as [_ H]. exact H.
+  intros HL Hin. pose proof (results_ok_reports _ _ _ _ _ _ t (history_ok_all c ops walks HL) Hin) as [_ H]. exact H.
 Qed.
 (* overflow_conserves_total *)
 Theorem conservation_lemma c ops walks : (1 <= c_limit c)%nat ->
-  results_ok c (fun _ => True) (fun _ => True) (run_ops c ops walks (init_storage c)) ops [] (map (fun _ => O) (c_temps c)).
-Proof. intros HL. eapply results_ok_mono; [| |apply history_ok_all; assumption]; auto. Qed.
+  results_ok c (fun _ => True) (run_ops c ops walks (init_storage c)) ops [] (map (fun _ => O) (c_temps c)).
+Proof. intros HL. eapply results_ok_mono; [|apply history_ok_all; assumption]. auto. Qed.
 
-(* ------------------------------------------------------------------ instance 2: histories without NaN attribute values *)
-Definition good (k : attrs) : Prop := sorted k /\ attrs_nan k = false.
+(* ------------------------------------------------------------------ instance 2: all keys are ordered maps *)
+Definition good (k : attrs) : Prop := sorted k.
 Definition P2 (L : nat) (t : table) : Prop := tinv L t /\ kdistinct t /\ kall good t.
 
 Lemma good_overflow : good overflow_attrs.
-Proof. split; [repeat constructor|reflexivity]. Qed.
+Proof. repeat constructor. Qed.
 Lemma good_nil : good [].
-Proof. split; [constructor|reflexivity]. Qed.
+Proof. constructor. Qed.
 
 Lemma assoc_in_sorted k v m : sorted m -> In (k, v) m -> assoc k m = Some v.
 Proof.
@@ -138,12 +127,6 @@ Proof.
   - apply bytes_eqb_eq in E. intros X. inversion X. subst. left. reflexivity.
   - intros X. right. auto.
 Qed.
-Lemma attrs_nan_in m k v : attrs_nan m = false -> In (k, v) m -> aval_nan v = false.
-Proof.
-  unfold attrs_nan. intros H Hin. destruct (aval_nan v) eqn:E; [|reflexivity].
-  assert (existsb (fun kv => aval_nan (snd kv)) m = true) by (apply existsb_exists; exists (k, v); auto). congruence.
-Qed.
-
 Lemma mk_attrs_nan f kvs : kvs_nan kvs = false -> attrs_nan (mk_attrs f kvs) = false.
 Proof.
   intros Hn. unfold attrs_nan. destruct (existsb _ (mk_attrs f kvs)) eqn:E; [|reflexivity].
@@ -151,50 +134,21 @@ Proof.
   pose proof (assoc_in_sorted k v _ (mk_attrs_sorted f kvs) Hin) as Ha. rewrite mk_attrs_denotes in Ha.
   rewrite (kvs_nan_false_kept _ _ _ _ Hn Ha) in Hv. discriminate.
 Qed.
-Lemma good_mk_attrs f kvs : kvs_nan kvs = false -> good (mk_attrs f kvs).
-Proof. intros H. split; [apply mk_attrs_sorted|apply mk_attrs_nan; assumption]. Qed.
-Lemma good_self k : good k -> self_eq k = true.
-Proof. intros [_ H]. apply attrs_eqb_refl. assumption. Qed.
 
-Definition ops_nan_free (ops : list op) : bool := negb (existsb op_nan ops).
-
-Theorem history_ok_nan_free c ops walks : (1 <= c_limit c)%nat -> ops_nan_free ops = true ->
-  results_ok c (P2 (c_limit c)) good (run_ops c ops walks (init_storage c)) ops [] (map (fun _ => O) (c_temps c)).
+Theorem history_ok_sorted c ops walks : (1 <= c_limit c)%nat ->
+  results_ok c (P2 (c_limit c)) (run_ops c ops walks (init_storage c)) ops [] (map (fun _ => O) (c_temps c)).
 Proof.
-  intros HL Hn. apply run_ops_ok.
+  intros HL. apply (run_ops_ok c (P2 (c_limit c)) good).
   - split; [apply tinv_nil; assumption|]. split; constructor.
   - intros k d t [H1 [H2 H3]] Hk. split; [apply record_tinv; assumption|]. split; [apply record_kdistinct; assumption|].
     apply kall_record; [apply good_overflow| |]; assumption.
-  - intros k d t t' [H1 [H2 H3]] Hk E. split; [eapply record_ref_tinv; eauto|]. split; [eapply record_ref_kdistinct; eauto|].
-    eapply kall_record_ref; [apply good_overflow| | |]; eauto.
-  - intros t e t' [H1 [H2 H3]] Hk E. split; [eapply merge_in_tinv; eauto|]. split; [eapply merge_in_kdistinct; eauto|].
-    eapply kall_merge_in; [apply good_overflow| | |]; eauto.
+  - intros t e [H1 [H2 H3]] Hk. split; [apply merge_in_tinv; assumption|]. split; [apply merge_in_kdistinct; assumption|].
+    apply kall_merge_in; [apply good_overflow| |]; assumption.
   - intros a b Hp [H1 [H2 H3]]. split; [eapply tinv_perm; eauto|]. split; [eapply kdistinct_perm; eauto|eapply kall_perm; eauto].
   - intros t e [_ [_ H]] Hin. eapply kall_in; eauto.
   - apply SP_init. split; [apply tinv_nil; assumption|]. split; constructor.
   - apply G_init.
-  - apply Forall_forall. intros o Ho. destruct o as [kvs v|v|i]; cbn; auto; [|apply good_nil]. apply good_mk_attrs.
-    unfold ops_nan_free in Hn. apply negb_true_iff in Hn. destruct (kvs_nan kvs) eqn:E; [|reflexivity].
-    assert (existsb op_nan ops = true) by (apply existsb_exists; exists (ORec kvs v); auto). congruence.
-Qed.
-
-Lemma results_ok_no_crash c P Q : Qself Q -> forall ops rs hist marks,
-  results_ok c P Q rs ops hist marks -> ~ In CCrash rs.
-Proof.
-  intros HQ. induction ops as [|o ops IH]; intros rs hist marks; cbn [results_ok].
-  - intros -> [].
-  - destruct o as [kvs v|v|i]; try (apply IH).
-    destruct rs as [|r rs]; [intros []|]. destruct r as [|t0| |].
-    + intros [_ H] [X|X]; [discriminate|]. eapply IH; eauto.
-    + intros [_ [_ H]] [X|X]; [discriminate|]. eapply IH; eauto.
-    + intros [H _]. contradiction.
-    + intros -> [X|[]]. discriminate.
-Qed.
-(* collect_completes: without NaN attribute values no collection dereferences a null aggregation *)
-Theorem nan_free_never_crashes_lemma c ops walks : (1 <= c_limit c)%nat -> ops_nan_free ops = true ->
-  ~ In CCrash (run_ops c ops walks (init_storage c)).
-Proof.
-  intros HL Hn. eapply results_ok_no_crash; [|apply history_ok_nan_free; eassumption]. intros k Hk. apply good_self. assumption.
+  - apply Forall_forall. intros o Ho. destruct o as [kvs v|v|i]; cbn; auto; [apply mk_attrs_sorted|apply good_nil].
 Qed.
 
 (* ------------------------------------------------------------------ instance 3: no series out of thin air *)
@@ -208,12 +162,11 @@ Proof.
   intros Hin He.
   set (Q := recorded_set (c_filter c) ops).
   assert (Hq : Q overflow_attrs) by (left; reflexivity).
-  assert (H : results_ok c (kall Q) Q (run_ops c ops walks (init_storage c)) ops [] (map (fun _ => O) (c_temps c))).
-  { apply run_ops_ok.
+  assert (H : results_ok c (kall Q) (run_ops c ops walks (init_storage c)) ops [] (map (fun _ => O) (c_temps c))).
+  { apply (run_ops_ok c (kall Q) Q).
     - constructor.
     - intros. apply kall_record; assumption.
-    - intros. eapply kall_record_ref; eauto.
-    - intros. eapply kall_merge_in; eauto.
+    - intros. apply kall_merge_in; assumption.
     - intros. eapply kall_perm; eauto.
     - intros. eapply kall_in; eauto.
     - apply SP_init. constructor.
@@ -221,7 +174,7 @@ Proof.
     - apply Forall_forall. intros o Ho. destruct o as [kvs v|v|i]; cbn; auto.
       + right. right. exists kvs, v. auto.
       + right. left. exists v. auto. }
-  pose proof (results_ok_reports _ _ _ _ _ _ _ t H Hin) as Ht. exact (kall_in Q t e Ht He).
+  pose proof (results_ok_reports _ _ _ _ _ _ t H Hin) as Ht. exact (kall_in Q t e Ht He).
 Qed.
 
 (* ------------------------------------------------------------------ spec-level distinctness from the map comparison *)
@@ -233,10 +186,9 @@ Proof.
 Qed.
 Lemma attrs_equiv_eqb a b : good a -> good b -> attrs_equiv a b = true -> attrs_eqb a b = true.
 Proof.
-  intros [Sa Na] [Sb Nb] H. rewrite attrs_eqb_maps_rel. apply (sorted_rel aval_eqb a b Sa Sb). intros k.
+  intros Sa Sb H. rewrite attrs_eqb_maps_rel. apply (sorted_rel aval_eqb a b Sa Sb). intros k.
   pose proof (proj1 (attrs_equiv_iff a b) H k) as Hk. rewrite opt_equiv_is_opt_rel in Hk.
-  destruct (assoc k a) eqn:Ea, (assoc k b) eqn:Eb; cbn in *; auto.
-  rewrite <- (aval_equiv_no_nan a0 a1); [assumption|]. eapply attrs_nan_in; [exact Na|]. apply assoc_in. eassumption.
+  destruct (assoc k a) eqn:Ea, (assoc k b) eqn:Eb; cbn in *; auto. rewrite <- aval_equiv_eqb. assumption.
 Qed.
 
 Lemma keys_distinct_of t : kdistinct t -> kall good t -> keys_distinct t = true.
@@ -252,62 +204,46 @@ Qed.
 
 (* ------------------------------------------------------------------ storage_clauses (strict = false) accepts the model *)
 Definition robs_of (r : cres) : robs :=
-  match r with CNoCb => RNoCb | CReport t => RPoints t | CCrash => RCrash | CReject => RReject end.
+  match r with CNoCb => RNoCb | CReport t => RPoints t | CReject => RReject end.
 
-Lemma history_clauses_ok c : forall ops rs hist reps marks,
-  results_ok c (P2 (c_limit c)) good rs ops hist marks -> ~ In CReject rs ->
-  history_clauses false (c_limit c) (c_mono c) (c_filter c) (c_temps c) false ops (map robs_of rs) hist reps marks = [].
+Lemma history_clauses_ok c nan : forall ops rs hist reps marks,
+  results_ok c (P2 (c_limit c)) rs ops hist marks -> ~ In CReject rs ->
+  history_clauses false (c_limit c) (c_mono c) (c_filter c) (c_temps c) nan ops (map robs_of rs) hist reps marks = [].
 Proof.
   induction ops as [|o ops IH]; intros rs hist reps marks; cbn [results_ok history_clauses].
   - intros -> _. reflexivity.
   - destruct o as [kvs v|v|i]; try (apply IH).
-    destruct rs as [|r rs]; [intros []|]. cbn [map]. destruct r as [|t| |]; cbn [robs_of report_clauses].
+    destruct rs as [|r rs]; [intros []|]. cbn [map]. destruct r as [|t|]; cbn [robs_of report_clauses].
     + intros [H1 H2] Hr. rewrite H1. cbn. apply IH; [assumption|]. intros X. apply Hr. right. assumption.
     + intros [[Ht [Hd Hg]] [H2 H3]] Hr.
       unfold count_ok, total_ok. rewrite table_total_is_total, H2, Z.eqb_refl, (keys_distinct_of t Hd Hg).
       pose proof (tinv_le _ _ Ht) as Hle. apply Nat.leb_le in Hle. rewrite Hle. cbn.
       apply IH; [assumption|]. intros X. apply Hr. right. assumption.
-    + intros [H _]. exfalso. apply H. intros k Hk. apply good_self. assumption.
     + intros _ Hr. exfalso. apply Hr. left. reflexivity.
 Qed.
 
-Theorem storage_meets_spec_partial c ops walks : (1 <= c_limit c)%nat -> ops_nan_free ops = true ->
+Theorem storage_meets_spec_partial c ops walks : (1 <= c_limit c)%nat ->
   ~ In CReject (run_ops c ops walks (init_storage c)) ->
   storage_clauses false c ops (map robs_of (run_ops c ops walks (init_storage c))) = [].
 Proof.
-  intros HL Hn Hr. unfold storage_clauses. unfold ops_nan_free in Hn. apply negb_true_iff in Hn. rewrite Hn.
-  apply history_clauses_ok; [|assumption]. apply history_ok_nan_free; [assumption|]. unfold ops_nan_free. rewrite Hn. reflexivity.
+  intros HL Hr. unfold storage_clauses. apply history_clauses_ok; [|assumption]. apply history_ok_sorted. assumption.
 Qed.
 
 (* ------------------------------------------------------------------ hashmap_clauses accepts the model *)
-Definition hops_nan_free (ops : list hop) : bool := negb (existsb hop_nan ops).
-
-Lemma hashmap_clauses_ok L f : (1 <= L)%nat -> forall ops walks t,
-  P2 L t -> hops_nan_free ops = true -> ~ In HRReject (run_hops L f ops walks t) ->
-  hashmap_clauses L false (run_hops L f ops walks t) = [].
+Lemma hashmap_clauses_ok L f nan : (1 <= L)%nat -> forall ops walks t,
+  P2 L t -> ~ In HRReject (run_hops L f ops walks t) ->
+  hashmap_clauses L nan (run_hops L f ops walks t) = [].
 Proof.
-  intros HL. induction ops as [|o ops IH]; intros walks t HP Hn Hr; [reflexivity|].
-  unfold hops_nan_free in Hn. cbn [existsb] in Hn. apply negb_true_iff in Hn. apply orb_false_iff in Hn. destruct Hn as [Ho Hn].
-  assert (Hn' : hops_nan_free ops = true) by (unfold hops_nan_free; rewrite Hn; reflexivity).
+  intros HL. induction ops as [|o ops IH]; intros walks t HP Hr; [reflexivity|].
   pose proof HP as HP0. destruct HP as [H1 [H2 H3]].
-  destruct o as [how kvs d|how kvs v|kvs|kvs| |]; cbn [run_hops hop_nan] in *.
-  - assert (Hk : good (mk_attrs f kvs)) by (apply good_mk_attrs; assumption).
-    destruct (how =? 1)%nat.
-    + destruct (record_ref L (mk_attrs f kvs) d t) as [t'|] eqn:Er.
-      * cbn [hashmap_clauses]. apply IH; auto.
-        -- split; [eapply record_ref_tinv; eauto|]. split; [eapply record_ref_kdistinct; eauto|].
-           eapply kall_record_ref; [apply good_overflow| | |]; eauto.
-        -- intros X. apply Hr. right. assumption.
-      * exfalso. unfold record_ref in Er. destruct (tfind (mk_attrs f kvs) t); [discriminate|].
-        destruct (is_overflow L t); [discriminate|]. rewrite (good_self _ Hk) in Er. discriminate.
-    + cbn [hashmap_clauses]. apply IH; auto.
-      * split; [apply record_tinv; assumption|]. split; [apply record_kdistinct; assumption|].
-        apply kall_record; [apply good_overflow| |]; assumption.
-      * intros X. apply Hr. right. assumption.
-  - assert (Hk : good (mk_attrs f kvs)) by (apply good_mk_attrs; assumption).
-    cbn [hashmap_clauses]. apply IH; auto.
+  destruct o as [how kvs d|how kvs v|kvs|kvs| |]; cbn [run_hops] in *.
+  - cbn [hashmap_clauses]. apply IH.
+    + split; [apply record_tinv; assumption|]. split; [apply record_kdistinct; assumption|].
+      apply kall_record; [apply good_overflow|assumption|apply mk_attrs_sorted].
+    + intros X. apply Hr. right. assumption.
+  - cbn [hashmap_clauses]. apply IH.
     + split; [apply tput_tinv; assumption|]. split; [apply tput_kdistinct; assumption|].
-      apply kall_tput; [apply good_overflow| |]; assumption.
+      apply kall_tput; [apply good_overflow|assumption|apply mk_attrs_sorted].
     + intros X. apply Hr. right. assumption.
   - cbn [hashmap_clauses]. apply IH; auto. intros X. apply Hr. right. assumption.
   - cbn [hashmap_clauses]. apply IH; auto. intros X. apply Hr. right. assumption.
@@ -322,11 +258,10 @@ Proof.
     pose proof (tinv_le _ _ W1) as Hle. apply Nat.leb_le in Hle. rewrite Hle, (keys_distinct_of w W2 W3). cbn.
     apply IH; auto. intros X. apply Hr. right. assumption.
 Qed.
-Theorem hashmap_meets_spec L f ops walks : (1 <= L)%nat -> hops_nan_free ops = true ->
+Theorem hashmap_meets_spec L f ops walks : (1 <= L)%nat ->
   ~ In HRReject (run_hops L f ops walks []) -> hashmap_clauses L (existsb hop_nan ops) (run_hops L f ops walks []) = [].
 Proof.
-  intros HL Hn Hr. pose proof Hn as Hn2. unfold hops_nan_free in Hn2. apply negb_true_iff in Hn2. rewrite Hn2.
-  apply hashmap_clauses_ok; auto. split; [apply tinv_nil; assumption|]. split; constructor.
+  intros HL Hr. apply hashmap_clauses_ok; auto. split; [apply tinv_nil; assumption|]. split; constructor.
 Qed.
 
 (* ------------------------------------------------------------------ eq_clauses accepts the model *)
@@ -371,21 +306,46 @@ Proof.
   rewrite H4. reflexivity.
 Qed.
 
-Theorem eq_meets_spec f a b : kvs_nan a = false -> kvs_nan b = false -> eq_clauses f a b (eq_model f a b) = [].
+(* without NaN in the first map the two comparisons agree *)
+Lemma dbl_eqb_ieee_no_nan a b : dbl_nan a = false -> dbl_ieee_eqb a b = dbl_eqb a b.
+Proof. unfold dbl_eqb. intros ->. cbn. rewrite orb_false_r. reflexivity. Qed.
+Lemma scal_ieee_no_nan t x y : scal_nan t x = false -> scal_ieee_eqb t x y = scal_eqb t x y.
+Proof. destruct x as [a|a], y as [b|b]; cbn; try reflexivity. destruct t; cbn; try reflexivity. apply dbl_eqb_ieee_no_nan. Qed.
+Lemma aval_ieee_no_nan x y : aval_nan x = false -> aval_ieee_eqb x y = aval_eqb x y.
 Proof.
-  intros Ha Hb. unfold eq_clauses, eq_model. cbn [eo_a eo_b eo_base eo_full eo_hash eo_series eo_paths eo_phash].
-  rewrite !canon_clauses_ok. cbn [app]. rewrite Ha, Hb. cbn [orb].
-  rewrite <- (attrs_eqb_iff_sets_equal f a b Ha).
+  destruct x as [t a|t l], y as [u b|u m]; cbn; try reflexivity; intros H.
+  - rewrite scal_ieee_no_nan by assumption. reflexivity.
+  - f_equal. revert m. induction l as [|x l IH]; intros [|y m]; cbn in *; try reflexivity.
+    apply orb_false_iff in H. destruct H as [H1 H2]. rewrite scal_ieee_no_nan by assumption. rewrite IH by assumption. reflexivity.
+Qed.
+Lemma attrs_ieee_no_nan a b : attrs_nan a = false -> attrs_ieee_eqb a b = attrs_eqb a b.
+Proof.
+  unfold attrs_nan, attrs_ieee_eqb, attrs_eqb. revert b. induction a as [|[k v] a IH]; intros [|[k' v'] b]; cbn; try reflexivity.
+  rewrite orb_false_iff. intros [H1 H2]. unfold pair_eqb. cbn [fst snd]. rewrite aval_ieee_no_nan by assumption. rewrite IH by assumption. reflexivity.
+Qed.
+
+Theorem eq_meets_spec f a b : eq_clauses f a b (eq_model f a b) = [].
+Proof.
+  unfold eq_clauses, eq_model. cbn [eo_a eo_b eo_base eo_full eo_hash eo_series eo_paths eo_phash].
+  rewrite !canon_clauses_ok. cbn [app].
+  rewrite <- (attrs_eqb_iff_sets_equal f a b).
   (* the pair lands in one series of a table with room iff the maps compare equal *)
   assert (Hs : match tfind (mk_attrs f b) (record 10 (mk_attrs f a) 1 []) with Some _ => true | None => false end
                = attrs_eqb (mk_attrs f a) (mk_attrs f b)).
   { unfold record. cbn [tfind]. unfold is_overflow. cbn [length Nat.leb Nat.add app]. cbn [tfind].
     destruct (attrs_eqb (mk_attrs f a) (mk_attrs f b)); reflexivity. }
-  rewrite Hs. rewrite !eqb_reflx. cbn [check app].
-  destruct (attrs_eqb (mk_attrs f a) (mk_attrs f b)); reflexivity.
+  rewrite Hs. rewrite !eqb_reflx.
+  assert (Hh : (negb (attrs_eqb (mk_attrs f a) (mk_attrs f b)) ||
+                match (if attrs_ieee_eqb (mk_attrs f a) (mk_attrs f b) then HSame else HNa) with
+                | HSame => true | HDiff => false | HNa => kvs_nan a || kvs_nan b end) = true).
+  { destruct (attrs_eqb (mk_attrs f a) (mk_attrs f b)) eqn:E; [|reflexivity]. cbn [negb orb].
+    destruct (attrs_ieee_eqb (mk_attrs f a) (mk_attrs f b)) eqn:Ei; [reflexivity|].
+    destruct (kvs_nan a) eqn:Ea; [reflexivity|]. exfalso.
+    rewrite (attrs_ieee_no_nan _ _ (mk_attrs_nan f a Ea)) in Ei. congruence. }
+  rewrite Hh. destruct (kvs_nan a || kvs_nan b); reflexivity.
 Qed.
 
-(* non-vacuity: a NaN-free history that overflows, through all clauses *)
+(* non-vacuity: a history that overflows, through all clauses *)
 Example storage_example :
   let c := mk_cfg 2 true FNone [true] in
   let r i := ORec [(bs "k", IV (VOne TI64 (SZ i)))] 1 in
@@ -394,7 +354,7 @@ Example storage_example :
     run_ops c ops [w1; w2; w3; w4] (init_storage c) =
       [CReport [([(bs "k", VOne TI64 (SZ 0))], 1); (overflow_attrs, 2)];
        CReport [([(bs "k", VOne TI64 (SZ 3))], 1); (overflow_attrs, 3)]] /\
-    ops_nan_free ops = true /\ storage_clauses true c ops (map robs_of (run_ops c ops [w1; w2; w3; w4] (init_storage c))) = [].
+    storage_clauses true c ops (map robs_of (run_ops c ops [w1; w2; w3; w4] (init_storage c))) = [].
 Proof.
   exists [([(bs "k", VOne TI64 (SZ 0))], 1); (overflow_attrs, 2)], [([(bs "k", VOne TI64 (SZ 0))], 1); (overflow_attrs, 2)],
          [([(bs "k", VOne TI64 (SZ 3))], 1)], [([(bs "k", VOne TI64 (SZ 3))], 1); (overflow_attrs, 3)].
@@ -402,37 +362,38 @@ Proof.
 Qed.
 
 (* ------------------------------------------------------------------ same series iff equal sets, for measurements *)
-Theorem same_series_iff_equal_sets L f a b d t : kvs_nan a = false ->
+Theorem same_series_iff_equal_sets L f a b d t :
   (sets_equal f a b = true ->
      attrs_eqb (series_key L (mk_attrs f a) t) (series_key L (mk_attrs f b) (record L (mk_attrs f a) d t)) = true) /\
   (attrs_eqb (series_key L (mk_attrs f a) t) (series_key L (mk_attrs f b) (record L (mk_attrs f a) d t)) = true ->
      sets_equal f a b = true \/ attrs_eqb (series_key L (mk_attrs f a) t) overflow_attrs = true).
 Proof.
-  intros Hn. split.
-  - intros He. apply equal_maps_same_series. rewrite attrs_eqb_iff_sets_equal; assumption.
+  split.
+  - intros He. apply equal_maps_same_series. rewrite attrs_eqb_iff_sets_equal. assumption.
   - intros Hs. destruct (same_series_equal_maps_or_overflow _ _ _ _ _ Hs) as [H|H]; [left|right; assumption].
-    apply attrs_eqb_sets_equal. assumption.
+    rewrite <- attrs_eqb_iff_sets_equal. assumption.
 Qed.
 
-(* ------------------------------------------------------------------ open finding F26 / F26b: a NaN attribute value *)
+(* ------------------------------------------------------------------ regression: the repaired F26 / F26b (a NaN attribute value) *)
 Definition nan_kvs : list (bytes * ival) := [(bs "k", IV (VOne TDbl (SZ 9221120237041090560)))].     (* 0x7ff8000000000000 *)
+Definition nan_kvs' : list (bytes * ival) := [(bs "k", IV (VOne TDbl (SZ 18444492273895866368)))].   (* 0xfff8000000000000 *)
 Definition nan_key : attrs := [(bs "k", VOne TDbl (SZ 9221120237041090560))].
+Definition nan_key' : attrs := [(bs "k", VOne TDbl (SZ 18444492273895866368))].
 Definition f26_cfg : cfg := mk_cfg 5 true FNone [false].
-Definition f26_ops : list op := [ORec nan_kvs 1; ORec nan_kvs 1; OCollect 0%nat].
-Definition f26_walk : table := [(nan_key, 1); (nan_key, 1)].
+Definition f26_ops : list op := [ORec nan_kvs 1; ORec nan_kvs' 1; OCollect 0%nat].
 Definition f26b_cfg : cfg := mk_cfg 5 true FNone [true].
-Definition f26b_ops : list op := [ORec nan_kvs 1; OCollect 0%nat].
+Definition f26b_ops : list op := [ORec nan_kvs 1; OCollect 0%nat; ORec nan_kvs' 2; OCollect 0%nat].
 
-(* the set equals itself as a key-to-value map, the code's comparison says it does not, two measurements make two series *)
-Theorem same_series_refuted_nan :
-  sets_equal FNone nan_kvs nan_kvs = true /\ attrs_eqb (mk_attrs FNone nan_kvs) (mk_attrs FNone nan_kvs) = false /\
-  run_ops f26_cfg f26_ops [f26_walk; f26_walk] (init_storage f26_cfg) = [CReport f26_walk] /\
-  storage_clauses true f26_cfg f26_ops [RPoints f26_walk] =
-    fail "same_series_iff_equal_maps:nan_value" ++ fail "same_series_iff_equal_maps:nan_value".
+(* a set holding a NaN equals itself and any other writing of the NaN; the measurements share one series; the merge path completes *)
+Example nan_value_regression :
+  attrs_eqb (mk_attrs FNone nan_kvs) (mk_attrs FNone nan_kvs') = true /\
+  run_ops f26_cfg f26_ops [[(nan_key, 2)]; [(nan_key, 2)]] (init_storage f26_cfg) = [CReport [(nan_key, 2)]] /\
+  run_ops f26b_cfg f26b_ops [[(nan_key, 1)]; [(nan_key, 1)]; [(nan_key', 2)]; [(nan_key', 3)]] (init_storage f26b_cfg) =
+    [CReport [(nan_key, 1)]; CReport [(nan_key', 3)]] /\
+  storage_clauses true f26b_cfg f26b_ops [RPoints [(nan_key, 1)]; RPoints [(nan_key', 3)]] = [].
 Proof. vm_compute. repeat split; reflexivity. Qed.
-(* on the merge path the collection dereferences a null aggregation; the const& overload of GetOrSetDefault answers nullptr *)
-Theorem collect_completes_refuted_nan :
-  run_ops f26b_cfg f26b_ops [[(nan_key, 1)]] (init_storage f26b_cfg) = [CCrash] /\
-  storage_clauses true f26b_cfg f26b_ops [RCrash] = fail "collect_completes:nan_value" /\
-  run_hops 5 FNone [HGet 1 nan_kvs 1; HSize] [] [] = [HRNull].
-Proof. vm_compute. repeat split; reflexivity. Qed.
+
+(* a collection ends without callback, with a report, or (differential run only) with a rejected walk order: nothing else exists *)
+Lemma collect_completes_lemma c ops walks r : In r (run_ops c ops walks (init_storage c)) ->
+  r = CNoCb \/ (exists t, r = CReport t) \/ r = CReject.
+Proof. intros _. destruct r as [|t|]; [left|right; left; exists t|right; right]; reflexivity. Qed.
